@@ -313,7 +313,7 @@ PROPS = {
     "C08": dict(
         theorems=[T + "renderToks_append", T + "render_stops_at_jump", T + "render_first_jump_wins", T + "gotoLoop_revisit",
                   T + "goto_out_of_fuel", T + "usable_after_failed_goto", T + "goto_frame", T + "goto_outKept",
-                  T + "gotoLoop_bound", T + "goto_bound", T + "keys_le_length"],
+                  T + "gotoLoop_bound", T + "goto_bound", T + "keys_le_length", T + "goto_failed_keeps_position"],
         run=run_c08,
         rule="jump graphs over 3-6 passages: top-level jumps (forward), jumps inside @if/@for (any direction in 30 % of the "
              "stories, so cyclic chains occur), with arguments; every passage shows a marker line; per-call time limit; "
@@ -336,7 +336,8 @@ PROPS = {
                    "record no hook run; registration is idempotent, FIFO, and unhooking keeps the others' order",
     ),
     "C10": dict(
-        theorems=[T + "goto_joinReset", T + "joinChoice_advances", T + "undo_choose"],
+        theorems=[T + "goto_joinReset", T + "joinChoice_advances", T + "undo_choose", T + "goto_failed_keeps_position",
+                  T + "renderFromJoinMarker_sec", T + "renderPassage_sec"],
         run=run_c10,
         rule="passages with 1-3 @join markers and mixes of join / ordinary / conditional / one-time choices, re-entered by "
              "choice, goto and jumps inside blocks; each join block bumps its own counter; distinct by hash",
